@@ -92,9 +92,36 @@ class PolarsContainerValidate(Contract):
 
         I.models[id(_w.warn)] = lambda I, *a, **k: None
 
+        class FrameFacts:
+            """names / dtypes resolved from ONE frame (get_lazyframe_schema, get_lazyframe_column_names): true of that frame only -
+            every parser returns a new frame whose columns or dtypes may differ (add_missing_columns, strict filter, coerce_dtype)"""
+
+            __pyvc_symbolic__ = True
+
+            def __init__(self, of):
+                self.of = of
+
+            def pyvc_iter(self, I_=None):
+                return []
+
+            def pyvc_contains(self, I_, x):
+                return SAny(name="in_frame").truth() if hasattr(SAny, "truth") else False
+
+        import pandera.api.polars.utils as PU
+        import pandera.backends.polars.container as PC
+
+        for fname in ("get_lazyframe_schema", "get_lazyframe_column_names", "get_lazyframe_column_dtypes"):
+            for mod in (PU, PC):
+                if hasattr(mod, fname):
+                    I.models[id(getattr(mod, fname))] = lambda I_, lf: FrameFacts(lf)
+
         def parser_model(name, codes):
             def m(I, self_obj, check_obj, *args, **kw):
                 p = cur()
+                for a in list(args) + list(kw.values()):
+                    if isinstance(a, FrameFacts):
+                        p.check(a.of is check_obj, f"{DFP}.validate/pre@{name}.facts_about_a_frame_are_used_for_that_frame_only",
+                                note=f"{name} is handed names / dtypes resolved from an earlier frame of the parser chain")
                 p.ghost.setdefault("calls", []).append((name, check_obj, args))
                 k = p.choose([("returns", None)] + [(c, None) for c in codes] + [("SchemaErrors", None)], name)
                 if 0 < k <= len(codes):
@@ -116,8 +143,12 @@ class PolarsContainerValidate(Contract):
 
         for name in PARSERS:
             I.models[id(getattr(B, name))] = parser_model(name, self.parser_codes(name))
-        def column_info(I, s, obj, schema):
+        def column_info(I, s, obj, schema, *facts, **kfacts):
             # ColumnInfo describes the columns of the frame it was computed from (absent / present / regex-expanded names)
+            for a in list(facts) + list(kfacts.values()):
+                if isinstance(a, FrameFacts):
+                    cur().check(a.of is obj, f"{DFP}.validate/pre@collect_column_info.facts_about_a_frame_are_used_for_that_frame_only",
+                                note="collect_column_info is handed names / dtypes resolved from another frame")
             ci = SAny(name=f"column_info#{len(cur().ghost.setdefault('column_infos', []))}")
             cur().ghost["column_infos"].append((ci, obj))
             return ci
